@@ -1039,6 +1039,11 @@ class Table(Vector):
 		
 		return Table(tuple(result_cols))
 	
+	def _unary_operation(self, op_func, op_name: str):
+		# -t, +t, abs(t): the vector operation column by column, like the binary operators
+		# (the inherited helper walked the ROWS: the result came back transposed and unnamed)
+		return Table(tuple(op_func(col) for col in self.cols()))
+
 	def __add__(self, other):
 		return self._table_elementwise_operation(other, operator.add, '__add__', '+')
 	
